@@ -42,6 +42,16 @@ func (c *SConn) Close() {
 	c.Conn.Close()
 }
 
+// SendAndClose writes one last frame (or part of one) and closes the connection, as one step with
+// respect to every other Send on this connection: nothing can be written behind the frame.
+func (c *SConn) SendAndClose(frame []byte) {
+	c.wmu.Lock()
+	defer c.wmu.Unlock()
+	_, _ = c.Conn.Write(frame)
+	c.Closed.CompareAndSwap(0, Tick())
+	c.Conn.Close()
+}
+
 // Reset closes the connection abortively (RST).
 func (c *SConn) Reset() {
 	if tc, ok := c.Conn.(*net.TCPConn); ok {
